@@ -87,6 +87,8 @@ def run_family_check(ctx, pid, n_quick, n_thorough, want=("report",), config_hoo
         ctx.violation(pc, signature(pid, pc, e, k), dict(RF.brief(e, k), trace_clause=clause), case=dict(C=e["C"]))
     for ev in failed[:50]:
         # a run the command line refused or that crashed: only a crash is an observation of the code
+        if ev["failed"]["exit"] == -3:
+            ctx.violation("OutputFilesAreCompleteRecords", f"{pid}:garbled-output-file", dict(argv=ev["argv"], failed=ev["failed"], config=ev["C"]))
         if ev["failed"]["exit"] == -1:
             ctx.violation("RunCompletes", f"{pid}:crash:" + ev["failed"]["exc"][:60], dict(argv=ev["argv"], failed=ev["failed"], config=ev["C"]))
     ctx.extra["cli_refusals"] = [dict(argv=ev["argv"], err=ev["failed"]["errors"][:1]) for ev in failed if ev["failed"]["exit"] != -1][:5]
